@@ -941,3 +941,64 @@ def binop_def(fn, op, depth=0):
         if d[3]["k"] == "use":
             return binop_def(fn, d[3]["op"], depth + 1)
     return None
+
+
+def _single_value_def(fn, local):
+    """the single definition of a local, not counting the failure values a `?` path assigns to a Result/Option place"""
+    d = fn.single_def(local)
+    if d is not None:
+        return d
+    ds = [x for x in fn.defs.get(local, [])
+          if not (x[0] == "call" and callee_is(x[2]["callee"], "core::ops::try_trait::FromResidual::from_residual"))
+          and not (x[0] == "assign" and x[3]["k"] == "aggregate" and x[3].get("variant") in ("Err", "None"))]
+    return ds[0] if len(ds) == 1 else None
+
+
+def origin_local(fn, local, depth=0):
+    """the local a value was moved from, through plain moves/copies and through being wrapped and unwrapped again:
+    `Ok(x)` / `Some(x)` -> `?` (Try::branch) or a `match` -> the Continue / Ok / Some payload.  Identity-preserving steps only."""
+    if depth > 24:
+        return local
+    d = fn.single_def(local)
+    if d is None:
+        # several definitions: ignore the failure values of `?` paths (from_residual, Err/None aggregates) and identical re-moves
+        ds = [x for x in fn.defs.get(local, [])
+              if not (x[0] == "call" and callee_is(x[2]["callee"], "core::ops::try_trait::FromResidual::from_residual"))
+              and not (x[0] == "assign" and x[3]["k"] == "aggregate" and x[3].get("variant") in ("Err", "None"))]
+        srcs = set()
+        for x in ds:
+            if x[0] == "assign" and x[3]["k"] == "use" and op_local(x[3]["op"]) is not None:
+                srcs.add(origin_local(fn, op_local(x[3]["op"]), depth + 1))
+            else:
+                srcs.add(("other", x[1]))
+        if len(ds) == 1:
+            d = ds[0]
+        elif len(srcs) == 1 and not isinstance(next(iter(srcs)), tuple):
+            return next(iter(srcs))
+        else:
+            return local
+    if d[0] == "assign":
+        rv = d[3]
+        if rv["k"] == "use":
+            p = op_place(rv["op"])
+            if p is None:
+                return local
+            l2, proj = p
+            if not proj:
+                return origin_local(fn, l2, depth + 1)
+            # payload of a wrapper: ((x as Variant).0)
+            if len(proj) == 2 and proj[0][0] == "downcast" and proj[1][0] == "field" and proj[1][1] == 0 and proj[0][1] in ("Continue", "Ok", "Some"):
+                w = origin_local(fn, l2, depth + 1)
+                dw = _single_value_def(fn, w)
+                # x = Try::branch(y): the Continue payload is y's Ok / Some payload
+                if dw and dw[0] == "call" and callee_is(dw[2]["callee"], "core::ops::try_trait::Try::branch") and dw[2]["args"]:
+                    yl = op_local(dw[2]["args"][0])
+                    if yl is not None:
+                        w = origin_local(fn, yl, depth + 1)
+                        dw = _single_value_def(fn, w)
+                if dw and dw[0] == "assign" and dw[3]["k"] == "aggregate" and dw[3].get("variant") in ("Ok", "Some") and len(dw[3]["ops"]) == 1:
+                    il = op_local(dw[3]["ops"][0])
+                    if il is not None:
+                        return origin_local(fn, il, depth + 1)
+            return local
+    return local
